@@ -686,14 +686,13 @@ class SrcModel:
                     else:
                         how = "external"
                         external = f"super().{f.attr}"
-                elif (
-                    isinstance(recv, ast.Call)
-                    and f.attr == "transform"
-                    and isinstance(self.resolve_expr(fn.module, recv.func), ClassDef)
-                    and self.is_transformer(self.resolve_expr(fn.module, recv.func))
-                ):
-                    cls = self.resolve_expr(fn.module, recv.func)
-                    targets, how = self.transformer_callbacks(cls), "transform"
+                elif self._receiver_class(fn, recv) is not None:
+                    cls = self._receiver_class(fn, recv)
+                    if f.attr == "transform" and self.is_transformer(cls):
+                        targets, how = [*self.dispatch(cls, "transform"), *self.transformer_callbacks(cls)], "transform"
+                    else:
+                        targets = self.dispatch(cls, f.attr)
+                        how = "annot" if targets else "unresolved"
                 elif isinstance(recv, ast.Attribute) and isinstance(recv.value, ast.Name) and recv.value.id == "self" \
                         and recv.attr in self_types:
                     targets = self.dispatch(self_types[recv.attr], f.attr)
@@ -728,6 +727,65 @@ class SrcModel:
                             sites.append(CallSite(caller=fn, node=n, targets=[res], external=None, how="ref"))
         sites.sort(key=lambda s: (s.node.lineno, s.node.col_offset))
         return sites
+
+    def _receiver_class(self, fn: FuncDef, recv: ast.expr) -> Optional[ClassDef]:
+        """Class of the object a method is called on, when it is evident: `Cls(...)`, a local bound once to `Cls(...)`,
+        a module-level name bound once to `Cls(...)`."""
+        def of_value(v: Optional[ast.expr], mod) -> Optional[ClassDef]:
+            if isinstance(v, ast.Call) and isinstance(v.func, (ast.Name, ast.Attribute)):
+                res = self.resolve_expr(mod, v.func)
+                if isinstance(res, ClassDef):
+                    return res
+            return None
+
+        if isinstance(recv, ast.Call):
+            return of_value(recv, fn.module)
+        if isinstance(recv, ast.Name):
+            if recv.id in fn.params:
+                return None
+            stores = [n for n in walk_shallow(fn.node) if isinstance(n, ast.Assign) and any(isinstance(t, ast.Name) and t.id == recv.id for t in n.targets)]
+            if stores:
+                classes = {id(c): c for c in (of_value(st.value, fn.module) for st in stores) if c is not None}
+                return next(iter(classes.values())) if len(classes) == 1 and len(stores) == 1 else None
+            res = self.resolve_name(fn.module, recv.id)
+            if isinstance(res, tuple) and res[0] == "modvar":
+                return of_value(self.module_constant(res[1], res[2]), res[1])
+        return None
+
+    def value_class(self, fn: FuncDef, expr: ast.expr, _depth: int = 0) -> Optional[ClassDef]:
+        """Static class of an expression inside `fn`, when it is evident from annotations: annotated parameters and
+        locals, `Cls(...)`, `self.attr` typed in __init__, and calls of methods/functions with a return annotation."""
+        if _depth > 4:
+            return None
+        if isinstance(expr, ast.Await):
+            return self.value_class(fn, expr.value, _depth + 1)
+        if isinstance(expr, ast.Name):
+            ann = self.local_annotations(fn)
+            if expr.id in ann:
+                return ann[expr.id]
+            if expr.id == "self" and fn.cls is not None:
+                return fn.cls
+            stores = [n for n in walk_shallow(fn.node) if isinstance(n, ast.Assign) and any(isinstance(t, ast.Name) and t.id == expr.id for t in n.targets)]
+            if len(stores) == 1:
+                return self.value_class(fn, stores[0].value, _depth + 1)
+            return None
+        if isinstance(expr, ast.Attribute) and isinstance(expr.value, ast.Name) and expr.value.id == "self" and fn.cls is not None:
+            return self.self_attr_types(fn.cls).get(expr.attr)
+        if isinstance(expr, ast.Call):
+            f = expr.func
+            if isinstance(f, (ast.Name, ast.Attribute)):
+                res = self.resolve_expr(fn.module, f) if not (isinstance(f, ast.Name) and f.id in fn.params) else None
+                if isinstance(res, ClassDef):
+                    return res
+                if isinstance(res, FuncDef) and res.node.returns is not None:
+                    return self._annotation_class(res.module, res.node.returns)
+            if isinstance(f, ast.Attribute):
+                rc = self.value_class(fn, f.value, _depth + 1)
+                if rc is not None:
+                    m = self.find_method(rc, f.attr)
+                    if m is not None and m.node.returns is not None:
+                        return self._annotation_class(m.module, m.node.returns)
+        return None
 
     def callees(self, fn: FuncDef) -> List[FuncDef]:
         out: List[FuncDef] = []
